@@ -508,13 +508,13 @@ package encode
 // four bounds in the order MinX MinY MaxX MaxY; each chunk is preceded by the length of exactly the bytes collected for
 // it; only trailing opaque-black entries of the palette are left out (the decoder supplies opaque black for them).
 //@   at call encodeNatural#0 assert [C01.reset.meta.magic C13.enc.meta.magic] (and (= (len e.buf) (int 4)) (= (at e.buf (int 0)) #x89) (= (at e.buf (int 1)) #x49) (= (at e.buf (int 2)) #x56) (= (at e.buf (int 3)) #x47))
-//@   at call encodeNatural#0 assert [C01.reset.meta.count C13.enc.meta.count] (= arg1 (bvadd (ite (= viewbox ivg.DefaultViewBox) #x00000000 #x00000001) (ite (forall ((j!q (_ BitVec 64))) (=> (bvult j!q #x0000000000000040) (= (select palette j!q) (select ivg.DefaultPalette j!q)))) #x00000000 #x00000001)))
+//@   at call encodeNatural#0 assert [C01.reset.meta.count C13.enc.meta.count] checkonly (= arg1 (bvadd (ite (= viewbox ivg.DefaultViewBox) #x00000000 #x00000001) (ite (forall ((j!q (_ BitVec 64))) (! (=> (bvult j!q #x0000000000000040) (= (select palette j!q) (select ivg.DefaultPalette j!q))) :pattern ((select palette j!q)))) #x00000000 #x00000001)))
 //@   at call encodeNatural#1 assert [C01.reset.meta.viewbox C13.enc.meta.viewbox] (and (not (= viewbox ivg.DefaultViewBox)) (= (len e.altBuf) (int 0)) (= arg1 #x00000000))
 //@   at call encodeCoordinate#0 assert [C01.reset.meta.viewbox C13.enc.meta.viewbox] (= arg1 viewbox.MinX)
 //@   at call encodeCoordinate#1 assert [C01.reset.meta.viewbox C13.enc.meta.viewbox] (= arg1 viewbox.MinY)
 //@   at call encodeCoordinate#2 assert [C01.reset.meta.viewbox C13.enc.meta.viewbox] (= arg1 viewbox.MaxX)
 //@   at call encodeCoordinate#3 assert [C01.reset.meta.viewbox C13.enc.meta.viewbox] (= arg1 viewbox.MaxY)
 //@   at call encodeNatural#2 assert [C01.reset.meta.length C13.enc.meta.length] (= arg1 ((_ extract 31 0) (len e.altBuf)))
-//@   at call encodeNatural#3 assert [C01.reset.meta.palette C13.enc.meta.palette] (and (not (forall ((j!q (_ BitVec 64))) (=> (bvult j!q #x0000000000000040) (= (select palette j!q) (select ivg.DefaultPalette j!q))))) (= (len e.altBuf) (int 0)) (= arg1 #x00000001))
+//@   at call encodeNatural#3 assert [C01.reset.meta.palette C13.enc.meta.palette] checkonly (and (not (forall ((j!q (_ BitVec 64))) (! (=> (bvult j!q #x0000000000000040) (= (select palette j!q) (select ivg.DefaultPalette j!q))) :pattern ((select palette j!q))))) (= (len e.altBuf) (int 0)) (= arg1 #x00000001))
 //@   at call encodeNatural#4 assert [C01.reset.meta.length C13.enc.meta.length] (= arg1 ((_ extract 31 0) (len e.altBuf)))
-//@   invariant 0 [C01.reset.trim C13.enc.trim] (forall ((j!t (_ BitVec 64))) (=> (and (bvslt n j!t) (bvsle j!t (int 63))) (= (select PAL j!t) (mk-color.RGBA #x00 #x00 #x00 #xff))))
+//@   invariant 0 [C01.reset.trim C13.enc.trim] (forall ((j!t (_ BitVec 64))) (! (=> (and (bvslt n j!t) (bvsle j!t (int 63))) (= (select PAL j!t) (mk-color.RGBA #x00 #x00 #x00 #xff))) :pattern ((select PAL j!t))))
